@@ -187,6 +187,11 @@ func c17() {
 	for k := 1; k <= run.N(6, 40); k++ {
 		hists = append(hists, hist{kind: "eio-while-hashing", k: k})
 	}
+	// the binary at the same path is replaced after a normal run, and the run on the new binary cannot read it completely
+	// while hashing (EIO, or a premature end of file, at its k-th read): the old binary's cache must not be taken for it
+	for k := 1; k <= run.N(6, 40); k++ {
+		hists = append(hists, hist{kind: "binary-replaced-then-eio-while-hashing", k: k}, hist{kind: "binary-replaced-then-short-read-while-hashing", k: k})
+	}
 	for i := 0; i < run.N(6, 200); i++ {
 		hists = append(hists, hist{kind: "two-interruptions", k: r0.Intn(total + 1), k2: r0.Intn(total + 1)})
 	}
@@ -406,6 +411,26 @@ func c17() {
 			}
 			copyFile(target, fx.binB)
 			wantProfile, finalListing = coldB, fx.listB
+		case "binary-replaced-then-eio-while-hashing", "binary-replaced-then-short-read-while-hashing":
+			step(vlib.ToolRun{Argv: argv(target), FakeMode: "emit", Listing: fx.listA}, "run 1: normal, binary A")
+			copyFile(target, fx.binB)
+			wantProfile, finalListing = coldB, fx.listB
+			steps = append(steps, "binary at the same path replaced by B")
+			inj := fmt.Sprintf("inject=read:error=EIO:when=%d", h.k)
+			if h.kind == "binary-replaced-then-short-read-while-hashing" {
+				inj = fmt.Sprintf("inject=read:retval=0:when=%d", h.k)
+			}
+			res := step(vlib.ToolRun{Argv: argv(target), FakeMode: "emit", Listing: fx.listB, Strace: []string{"-P", target, "-e", "trace=read", "-e", inj}},
+				fmt.Sprintf("run 2: binary B, read #%d of the binary fails (%s); the disassembler works", h.k, inj))
+			if res == nil {
+				return
+			}
+			// only reads of the binary are disturbed: a run that reports success must print B's profile
+			if res.ExitCode == 0 && !res.Signaled && !res.TimedOut && res.Stdout != coldB {
+				run.Violation("other-binarys-cache-trusted:"+h.kind, fmt.Sprintf("history '%s' (k=%d): the run on the replaced binary exits 0 with a profile of %d syscalls; a cold cache gives %d for this binary (and %d for the binary that was there before)", h.kind, h.k, len(profileNames(res.Stdout)), len(profileNames(coldB)), len(profileNames(coldA))),
+					map[string]any{"check": "C17", "history": h.kind, "k": h.k, "steps": steps, "stderr_tail": tail(res.Stderr, 600)})
+				return
+			}
 		case "crash-on-entering-nth-write-or-rename":
 			set := "write,rename,renameat,renameat2,fsync,ftruncate,unlink,unlinkat"
 			step(vlib.ToolRun{Argv: argv(target), FakeMode: "emit", Listing: fx.listA, Strace: []string{"-f", "-e", "trace=" + set, "-e", fmt.Sprintf("inject=%s:signal=KILL:when=%d", set, h.k)}},
